@@ -89,6 +89,13 @@ Theorem C11_ExpFlow_is_expv_call :
   gen_expflow_forward_sign false = 1%Z /\ gen_expflow_forward_sign true = (-1)%Z /\ gen_expflow_inverse_module_sign = (-1)%Z /\
   (forall ac, gen_expflow_ac ac = ac).
 Proof. exact gen_expflow_is_expv_call. Qed.
+(* 4c. StationaryVelocityFieldTransform (traced from spatial/nonrigid.py with stub base classes): the align_corners flag of its
+       ExpFlow module is the flag of the transformation's current grid, at construction and after grid_(g) / grid(g) for every
+       combination of old and new flag (and the module shared with shallow copies is not modified) *)
+Theorem C11_SVF_exp_flag_is_grid_flag :
+  (forall ac, gen_svf_init_exp_ac ac = ac) /\ (forall old new, gen_svf_regrid_exp_ac old new = new).
+Proof. exact gen_svf_exp_flag_is_grid_flag. Qed.
+Print Assumptions C11_SVF_exp_flag_is_grid_flag.
 Print Assumptions C11_ExpFlow_is_expv_call.
 
 Print Assumptions C11_square_step_2d.
